@@ -256,6 +256,12 @@ func (b *Bank) Op(id uint64) (op OpSpec) {
 		op.Buf, op.Fault = "generous", "none"
 		return op
 	}
+	if id >= WrapBase && len(b.reqs) > 0 {
+		k := id - WrapBase
+		op.Kind, op.Type = "wrap", b.reqs[int(k/2)%len(b.reqs)].Name
+		op.Omit = []int{300, 66000}[k%2] // past one period of an 8-bit resp. a 16-bit counter
+		return op
+	}
 	if isPanicOp(id) {
 		if pan := b.C.Panicky(); len(pan) > 0 {
 			k := int(id - PanicBase)
@@ -274,8 +280,8 @@ func (b *Bank) Op(id uint64) (op OpSpec) {
 		switch {
 		case roll < 70:
 			op.Kind, op.Type = "encplan", b.pick(id, r).Name
-			if op.Budget > 5000 {
-				op.Budget = 5000
+			if op.Budget > 5000 && !(op.Budget >= 70000 && r.Chance(1, 2)) {
+				op.Budget = 5000 // (half of the largest budgets stay: values that are big in one dimension)
 			}
 		case roll < 80:
 			op.Kind, op.Type, op.Fault = "dec", b.pick(id, r).Name, pickFault(r)
@@ -353,6 +359,14 @@ func (b *Bank) Op(id uint64) (op OpSpec) {
 			if op.Budget > 1500 {
 				op.Budget = 1500
 			}
+		case roll < 85:
+			op.Kind, op.Type, op.Fault = "dec", b.pick(id, r).Name, pickFault(r)
+			op.Prefill = r.Chance(1, 4)
+		case roll < 88 && b.Prof == "C07":
+			// every prefix and every single-byte corruption of one small message, as predecessors of whatever comes
+			// next: each failing decode leaves through a different exit
+			op.Kind, op.Type = "decenum", b.pick(id, r).Name
+			op.Budget = []int{40, 80, 120, 200}[r.Intn(4)]
 		case roll < 88:
 			op.Kind, op.Type, op.Fault = "dec", b.pick(id, r).Name, pickFault(r)
 			op.Prefill = r.Chance(1, 4)
@@ -381,12 +395,6 @@ func (b *Bank) Op(id uint64) (op OpSpec) {
 			}
 		}
 	case "C09":
-		if id >= WrapBase {
-			k := id - WrapBase
-			op.Kind, op.Type = "wrap", b.reqs[int(k/2)%len(b.reqs)].Name
-			op.Omit = []int{300, 66000}[k%2] // past one period of an 8-bit resp. a 16-bit counter
-			return op
-		}
 		s := b.reqs[r.Intn(len(b.reqs))]
 		if isFocus(id) {
 			s = b.pick(id, r)
@@ -561,6 +569,10 @@ func Derive(prof string, c *model.Corpus, seed uint64, run int, bankLimit uint64
 		}
 	case "C07":
 		nops = 30 + r.Intn(80)
+		if r.Chance(1, 10) {
+			soak = true // a long single-task run around a wrap operation (see C09)
+			rs.Tasks, rs.Pool, nops = 1, "lifo", 6+r.Intn(10)
+		}
 	case "C09":
 		rs.Tasks = 1 + r.Intn(2)
 		nops = 40 + r.Intn(80)
@@ -815,6 +827,13 @@ func deriveC08(rs *RunSpec, b *Bank, r *model.Rng) {
 	for id := uint64(0); id < b.Size; id++ {
 		op := b.Op(id)
 		byType[op.Type] = append(byType[op.Type], id)
+	}
+	// every valid definition also has its ten focus operations (the prefix of the bank that the quick tier uses holds
+	// less than one operation per definition): rounds do not depend on what the prefix happens to contain
+	for i, sd := range b.valid {
+		for v := uint64(0); v < FocusVariants; v++ {
+			byType[sd.Name] = append(byType[sd.Name], FocusBase+uint64(i)*FocusVariants+v)
+		}
 	}
 	var rejIDs []uint64 // calls on rejected definitions: a failing registration in the middle of the others
 	for _, sd := range b.rej {
